@@ -20,7 +20,7 @@ type Layout struct {
 	Width int  // line width, 0 = one line
 	Lower bool // lower-case sequence letters
 	CRLF  bool
-	Desc  bool // add a description after the ID
+	Desc  bool   // add a description after the ID
 	Sep   string // whitespace between ID and description ("" = one space)
 	Lead  string // whitespace between '>' and the ID (usually none)
 }
@@ -244,20 +244,20 @@ func (s *SamCase) recLine(rec SamRec) string {
 }
 
 type samSpec struct {
-	L          int
-	Queries    int
-	MaxRecs    int
-	Overlap    bool    // records of one query may overlap
-	Conflict   float64 // probability that an overlapping record disagrees on a base
-	Ins        float64 // probability of an insertion after a base
-	Del        float64
-	Skip       float64
-	Junk       float64 // probability of interleaving an unmapped / secondary record
-	ShortTail  bool    // bias: records end soon after an insertion (C02)
-	Clip       float64
-	InsDisjoint bool   // an insertion anchor is covered by exactly one record
-	EdgeIns    float64 // probability of an insertion as the first / last aligned operation of a record
-	DelFlip    float64 // probability that a record other than the first disagrees on deleted-vs-aligned at a position
+	L           int
+	Queries     int
+	MaxRecs     int
+	Overlap     bool    // records of one query may overlap
+	Conflict    float64 // probability that an overlapping record disagrees on a base
+	Ins         float64 // probability of an insertion after a base
+	Del         float64
+	Skip        float64
+	Junk        float64 // probability of interleaving an unmapped / secondary record
+	ShortTail   bool    // bias: records end soon after an insertion (C02)
+	Clip        float64
+	InsDisjoint bool    // an insertion anchor is covered by exactly one record
+	EdgeIns     float64 // probability of an insertion as the first / last aligned operation of a record
+	DelFlip     float64 // probability that a record other than the first disagrees on deleted-vs-aligned at a position
 }
 
 // genSam builds a SAM case: per query a plan over reference positions (base / deleted / skipped,
